@@ -99,8 +99,7 @@ def run_corpus(ctx, P):
     dis = []
     for gr, s, i in CORPUS:
         cls, rules = G.build(P, gr)
-        enc = lib.Encoder(P, rules)
-        lines = enc.grammar_lines()
+        lines = G.grammar_wire(gr)
         py = lib.py_lparse(P, rules[0], s, i, full=False)
         q = ec.case_lines(MODE, s, i)
         out = lib.run_driver(lines + q)
@@ -123,7 +122,7 @@ def run(ctx):
 
     dis = run_corpus(ctx, P)
     n_gr, n_str = ctx.budget((500, 10), (6000, 30))
-    info, dis2 = ec.run(ctx, P, MODE, n_gr, n_str, seed=ctx.seed)
+    info, dis2 = ec.run(ctx, P, MODE, n_gr, n_str, seed=ctx.seed, text_route=True)
     dis += dis2
     ndis += len(dis)
     ctx.corr_samples = dis[:5]
